@@ -142,8 +142,39 @@ fn one(run: &mut Run, f: &str, data: &[u8], src: &[u8], dst: &[u8]) {
     run.op(op, out);
 }
 
-/// 16 address pairs, as (v4 src, v4 dst, v6 src, v6 dst); the first ones are the extremes and the
-/// repository's test vectors, the rest random
+/// an address of `n` 16-bit words whose words sum to exactly `total` (spread at random): the
+/// pseudo-header accumulator then hits the chosen carry pattern whatever the code does in between
+pub fn addr_with_word_sum(rng: &mut Rng, n: usize, total: u32) -> Vec<u8> {
+    let mut left = total.min(0xffff * n as u32);
+    let mut words = vec![0u32; n];
+    // fill to the brim from a random rotation, then move random amounts between words
+    let start = rng.below(n as u64) as usize;
+    for k in 0..n {
+        let i = (start + k) % n;
+        let w = left.min(0xffff);
+        words[i] = w;
+        left -= w;
+    }
+    for _ in 0..n {
+        let (a, b) = (rng.below(n as u64) as usize, rng.below(n as u64) as usize);
+        let room = 0xffff - words[b];
+        let d = if words[a].min(room) == 0 { 0 } else { rng.below(u64::from(words[a].min(room)) + 1) as u32 };
+        words[a] -= d;
+        words[b] += d;
+    }
+    words.iter().flat_map(|w| [(*w >> 8) as u8, *w as u8]).collect()
+}
+
+/// word sums at which a one's-complement accumulator changes its carry pattern: around every
+/// multiple of 0x10000 and around the values whose once-folded sum carries again
+pub const CARRY_SUMS: [u32; 14] = [
+    0xffff, 0x1_0000, 0x1_0001, 0x1_fffe, 0x1_ffff, 0x2_0000, 0x2_fffd, 0x2_fffe, 0x3_fffc, 0x3_fffd, 0x4_fffb, 0x6_fff9,
+    0x7_fff7, 0x7_fff8,
+];
+
+/// 16 + 14 address pairs, as (v4 src, v4 dst, v6 src, v6 dst); the first ones are the extremes and the
+/// repository's test vectors, then random ones, then pairs built for the carry patterns of the
+/// pseudo-header sum
 fn address_pairs(rng: &mut Rng) -> Vec<[Vec<u8>; 4]> {
     let h = |s: &str| unhex(s).unwrap();
     let mut v: Vec<[Vec<u8>; 4]> = vec![
@@ -158,6 +189,13 @@ fn address_pairs(rng: &mut Rng) -> Vec<[Vec<u8>; 4]> {
     ];
     while v.len() < 16 {
         v.push([rng.bytes(4), rng.bytes(4), rng.bytes(16), rng.bytes(16)]);
+    }
+    for (k, s) in CARRY_SUMS.iter().enumerate() {
+        // one address carries the pattern, the other is small or another pattern
+        let other = if k % 2 == 0 { 1 } else { CARRY_SUMS[(k * 5 + 3) % CARRY_SUMS.len()] };
+        let (a4, b4) = (addr_with_word_sum(rng, 2, *s), addr_with_word_sum(rng, 2, other));
+        let (a6, b6) = (addr_with_word_sum(rng, 8, *s), addr_with_word_sum(rng, 8, other));
+        v.push(if k % 3 == 0 { [b4, a4, b6, a6] } else { [a4, b4, a6, b6] });
     }
     v
 }
